@@ -870,13 +870,26 @@ def _chains_to_switches(fd, log):
                 break
         if len(cases) < 2 or default is None:
             continue
-        # overlapping cases would change the meaning (the first match wins in a chain)
-        ok = True
-        for x in range(len(cases)):
-            for y in range(x + 1, len(cases)):
-                if not (cases[x][1] < cases[y][0] or cases[y][1] < cases[x][0]):
-                    ok = False
-        if not ok:
+        # the first match wins in a chain: a later test only gets what the earlier ones left over
+        # (`0 == c; else c <= 14` is case 0 and case 1 ... 14)
+        disjoint = []
+        for lo, hi, tgt in cases:
+            parts = [(lo, hi)]
+            for plo, phi, _t in disjoint:
+                nparts = []
+                for a_, b_ in parts:
+                    if phi < a_ or b_ < plo:
+                        nparts.append((a_, b_))
+                        continue
+                    if a_ < plo:
+                        nparts.append((a_, plo - 1))
+                    if phi < b_:
+                        nparts.append((phi + 1, b_))
+                parts = nparts
+            for a_, b_ in parts:
+                disjoint.append((a_, b_, tgt))
+        cases = disjoint
+        if len(cases) > 40:
             continue
         head = blocks[hid]
         line = (head.get("term") or {}).get("line", 0)
